@@ -1810,6 +1810,12 @@ func c03LiteralCase(c *wk.Case, per int) {
 			c03LitReject(c, "out-of-range", s, 0)
 			c03LitReject(c, "out-of-range", s, i+1)
 		}
+		// below MinInt64: not representable whichever way the minus sign is read
+		for i, s := range []string{"-9223372036854775809", "-18446744073709551615", "-0x8000000000000001", "-0xFFFFFFFFFFFFFFFF", "-0XC000000000000000",
+			"-0x10000000000000000", "-0b1" + strings.Repeat("0", 62) + "1", "-0b" + strings.Repeat("1", 64), "- 0xFFFFFFFFFFFFFFFF", "-1e400"} {
+			c03LitReject(c, "out-of-range-negative", s, 0)
+			c03LitReject(c, "out-of-range-negative", s, i+1)
+		}
 		for _, s := range []string{"", "a", "\\", "\"", "'", "`", "\n", "a\nb", "\t\r\b\f", "\\n", "é日😀", "//x", "/*x*/", "#x", "a\\\"b", "''", "\"\""} {
 			c03Strings(c, r, s)
 		}
@@ -1877,6 +1883,10 @@ func c03LiteralCase(c *wk.Case, per int) {
 					s, cl = "0x"+c03MixCase(r, v.Text(16)), "out-of-range-hex"
 				default:
 					s, cl = "0b"+v.Text(2), "out-of-range-bin"
+				}
+				if v.Cmp(new(big.Int).Lsh(big.NewInt(1), 63)) > 0 && r.Intn(2) == 0 {
+					// magnitude above 2^63: the negated literal is below MinInt64
+					s, cl = "-"+s, cl+"-negative"
 				}
 			} else {
 				s, cl = fmt.Sprintf("%d.%de%s%d", 1+r.Intn(9), r.Intn(1000), []string{"", "+"}[r.Intn(2)], 309+r.Intn(5000)), "out-of-range-float"
